@@ -289,6 +289,9 @@ class Info:
         self.is_rc = None
         self.cut_prefix = None
         self.cut_suffix = None
+        self.removed5 = 0  # bases removed from the 5' / 3' end before adapter trimming
+        self.removed3 = 0
+        self.stage_input = None  # the record as it entered the adapter stage
 
     @property
     def adapter_name(self):
@@ -399,6 +402,8 @@ def run_chain(o, ad1, ad2, r1, r2=None, order=None, stats=None):
     infos = [Info() for _ in recs]
     for stage in (order or STAGES):
         if stage == "adapters":
+            for side in range(len(recs)):
+                infos[side].stage_input = recs[side]
             if not (ad1 or ad2):
                 continue
             if not paired:
@@ -455,16 +460,27 @@ def run_chain(o, ad1, ad2, r1, r2=None, order=None, stats=None):
                     rec, pre, suf = cut(rec, n)
                     if pre is not None:
                         info.cut_prefix = pre
+                        info.removed5 += len(pre)
                     if suf is not None:
                         info.cut_suffix = suf
+                        info.removed3 += len(suf)
             elif stage == "nextseq" and o["nextseq"] is not None:
                 rec, k = nextseq_trim(rec, o["nextseq"], o["qbase"])
                 stats.quality_trimmed[side] += k
+                info.removed3 += k
             elif stage == "quality":
                 q = o["q1"] if side == 0 else o["q2"]
                 if q is not None:
+                    before = rec
                     rec, k = quality_trim(rec, q[0], q[1], o["qbase"])
                     stats.quality_trimmed[side] += k
+                    if len(rec[1]) == 0:
+                        info.removed3 += k  # everything removed: attribute to the 3' end
+                    else:
+                        qs = [ord(c) - o["qbase"] for c in before[2]]
+                        (a, b), _ = c13.ref_trim(qs, q[0], q[1])
+                        info.removed5 += a
+                        info.removed3 += len(before[1]) - b
             elif stage == "poly_a" and o["poly_a"]:
                 rec, k = poly_a(rec, side == 1)
                 stats.poly_a_trimmed[side] += k
